@@ -262,6 +262,144 @@ func checkC02(e *Engine, r *Report) {
 		})
 		r.Check("R11:taken-cpus-unshared", "idle sharing", "CPUs taken into a balloon are removed from the SharedIdleCpus of the balloons in the policy's list", e.Pos(share.Pos()), share, okRem, "", true)
 	}
+	// when there is something to un-share / share, it happens for every balloon concerned: with all tested sets non-empty and
+	// the sharing level defined, every iteration of the two loops passes the update of SharedIdleCpus, and the walk handler
+	// accumulates the node's idle CPUs
+	{
+		nonEmpty := func(extra func(cond ssa.Value) (bool, bool)) Assumption {
+			return func(cond ssa.Value) (bool, bool) {
+				if extra != nil {
+					if k, v := extra(cond); k {
+						return true, v
+					}
+				}
+				b, ok := cond.(*ssa.BinOp)
+				if !ok {
+					return false, false
+				}
+				if c, isC := b.X.(*ssa.Call); isC && callObj(c.Common()) != nil && callObj(c.Common()).Name() == "Size" && isConstInt(b.Y, 0) {
+					switch b.Op {
+					case token.GTR, token.NEQ:
+						return true, true
+					case token.EQL, token.LEQ:
+						return true, false
+					}
+				}
+				// the sharing level is defined / the node is at that level
+				if b.Op == token.EQL || b.Op == token.NEQ {
+					fieldName := ""
+					for _, side := range []ssa.Value{b.X, b.Y} {
+						Origins(side, func(v ssa.Value) bool {
+							if f, _ := loadedField(v); f != nil && (f.Name() == "ShareIdleCpusInSame" || f.Name() == "level") {
+								if fieldName != "level" {
+									fieldName = f.Name()
+								}
+								return true
+							}
+							if u, ok := v.(*ssa.UnOp); ok {
+								if fv, ok := u.X.(*ssa.FreeVar); ok && fv.Name() == "topoLevel" && fieldName == "" {
+									fieldName = "ShareIdleCpusInSame"
+								}
+							}
+							return false
+						})
+					}
+					switch fieldName {
+					case "level":
+						return true, b.Op == token.EQL // t.level == topoLevel
+					case "ShareIdleCpusInSame":
+						return true, b.Op == token.NEQ // topoLevel != undefined
+					}
+				}
+				return false, false
+			}
+		}
+		nLoops := 0
+		AllInstrsOf(share, func(in ssa.Instruction) {
+			st, ok := in.(*ssa.Store)
+			if !ok || fieldOfAddr(st.Addr) != fShared {
+				return
+			}
+			// enclosing index loop: the nearest dominating block that starts with a #rangeindex phi
+			var head *ssa.BasicBlock
+			for b := st.Block(); b != nil; b = b.Idom() {
+				if len(b.Instrs) > 0 {
+					if ph, ok := b.Instrs[0].(*ssa.Phi); ok && ph.Comment == "rangeindex" {
+						head = b
+						break
+					}
+				}
+			}
+			if head == nil {
+				return
+			}
+			nLoops++
+			hIf, _ := lastInstr(head).(*ssa.If)
+			inLoop := func(cond ssa.Value) (bool, bool) {
+				if hIf != nil && cond == hIf.Cond {
+					return true, true
+				}
+				return false, false
+			}
+			kind := "un-shared from"
+			if c, ok := st.Val.(*ssa.Call); ok && callObj(c.Common()) != nil && callObj(c.Common()).Name() == "Union" {
+				kind = "shared to"
+			}
+			bp := FindPath(PathQuery{Fn: share, From: hIf, Assume: nonEmpty(inLoop), Block: func(x ssa.Instruction) bool { return x == in },
+				Target: func(x ssa.Instruction) bool { return x == head.Instrs[0] }})
+			r.Check("R1:share-update-per-balloon#"+strings.ReplaceAll(kind, " ", "-"), "idle sharing", "when the CPUs concerned are non-empty (and the sharing level is defined) they are "+kind+" every balloon of the loop: no iteration ends without the SharedIdleCpus update", e.InstrPos(in), share, bp == nil && hIf != nil,
+				"an iteration can skip the update: "+e.pathString(bp), true)
+		})
+		r.MinInstances("SharedIdleCpus update loops", nLoops, 2)
+		// both kinds of update exist, and their loops are entered whenever the sets concerned are non-empty
+		kinds := map[string]*ssa.BasicBlock{}
+		AllInstrsOf(share, func(in ssa.Instruction) {
+			st, ok := in.(*ssa.Store)
+			if !ok || fieldOfAddr(st.Addr) != fShared {
+				return
+			}
+			c, ok := st.Val.(*ssa.Call)
+			if !ok || callObj(c.Common()) == nil {
+				return
+			}
+			for b := st.Block(); b != nil; b = b.Idom() {
+				if len(b.Instrs) > 0 {
+					if ph, ok := b.Instrs[0].(*ssa.Phi); ok && ph.Comment == "rangeindex" {
+						kinds[callObj(c.Common()).Name()] = b
+						break
+					}
+				}
+			}
+		})
+		for _, k := range []struct{ op, what string }{{"Difference", "taken CPUs are removed from the balloons' shared idle CPUs"}, {"Union", "idle CPUs are added to the sharing balloons' shared idle CPUs"}} {
+			head := kinds[k.op]
+			okK, why := head != nil, "no SharedIdleCpus = SharedIdleCpus."+k.op+"(…) inside a loop over the balloons"
+			if okK {
+				bp := FindPath(PathQuery{Fn: share, Assume: nonEmpty(nil), Block: func(x ssa.Instruction) bool { return x == head.Instrs[0] }, Target: func(x ssa.Instruction) bool { _, ok := x.(*ssa.Return); return ok }})
+				okK, why = bp == nil, "with non-empty sets the loop can be bypassed: "+e.pathString(bp)
+			}
+			r.Check("R1:share-loop-entered#"+k.op, "idle sharing", "shareIdleCpus: "+k.what+" whenever there is something to remove/add", e.Pos(share.Pos()), share, okK, why, true)
+		}
+		// the walk handler
+		for _, cl := range share.AnonFuncs {
+			var acc ssa.Instruction
+			AllInstrsOf(cl, func(in ssa.Instruction) {
+				if st, ok := in.(*ssa.Store); ok {
+					if _, isFV := st.Addr.(*ssa.FreeVar); isFV {
+						if c, ok := st.Val.(*ssa.Call); ok && callObj(c.Common()) != nil && callObj(c.Common()).Name() == "Union" {
+							acc = in
+						}
+					}
+				}
+			})
+			if acc == nil {
+				continue
+			}
+			r.MustPass("R1:walk-accumulates-level-nodes", "idle sharing", "at a node of the sharing level that holds CPUs of the balloon, the handler adds the node's offered CPUs to the balloon's share", cl, nil, nil,
+				func(x ssa.Instruction) bool { return x == acc }, nonEmpty(nil))
+		}
+		r.MinKeys("R1:walk-accumulates-level-nodes", 1)
+	}
 	// the walk that collects the idle CPUs of a balloon's sharing scope visits every node of that level
 	{
 		walk := e.Fn(pkgBL, "cpuTreeNode.DepthFirstWalk")
